@@ -54,6 +54,9 @@ class FnTranslator:
         self.env: dict[str, tuple[str, str]] = {}  # python local -> (coq name, kind)
         self.signatures = signatures
         self.used_calls: list[str] = []
+        self.resolver = None  # (kind, name) -> ast.FunctionDef of a private helper that may be inlined
+        self.depth = 0
+        self.ret_kind = "npf"
         if arg:
             self.env[arg] = (f"v_{arg}", "raw")
 
@@ -69,6 +72,8 @@ class FnTranslator:
         if isinstance(n, ast.Name):
             if n.id in self.env:
                 name, kind = self.env[n.id]
+                if kind == "termobj":
+                    raise self.err(n, "helper term used as a value")
                 return name, ("npf" if kind == "raw" else kind)
             if n.id == "nan":
                 return "nan", "py"
@@ -236,46 +241,91 @@ class FnTranslator:
                     raise self.err(n, "bool fill value")
                 return a, "npf"
             raise self.err(n, "unsupported numpy function")
-        # helper-term call:  Cls(kw=..., ...).membership(x)
-        if (
-            isinstance(f, ast.Attribute)
-            and f.attr == "membership"
-            and isinstance(f.value, ast.Call)
-            and isinstance(f.value.func, ast.Name)
-            and f.value.func.id in self.signatures
-            and len(n.args) == 1
-            and not n.keywords
-        ):
-            cls = f.value.func.id
-            if f.value.args:
-                raise self.err(n, "positional constructor arguments in helper term")
-            given = {}
-            for kw in f.value.keywords:
-                if kw.arg is None:
-                    raise self.err(n, "**kwargs")
-                t, k = self.expr(kw.value)
+        # helper-term call:  Cls(kw=..., ...).membership(x)   or   t = Cls(kw=...); ... t.membership(x)
+        if isinstance(f, ast.Attribute) and f.attr == "membership" and len(n.args) == 1 and not n.keywords:
+            obj = None
+            if isinstance(f.value, ast.Call) and isinstance(f.value.func, ast.Name) and f.value.func.id in self.signatures:
+                obj = self.helper_term(f.value)
+            elif isinstance(f.value, ast.Name) and self.env.get(f.value.id, ("", ""))[1] == "termobj":
+                obj = self.env[f.value.id][0]
+            if obj is not None:
+                x, k = self.expr(n.args[0])
                 if k == "bool":
-                    raise self.err(n, "bool parameter")
-                given[kw.arg] = t
-            actual = []
-            for pname, default in self.signatures[cls]:
-                if pname in given:
-                    actual.append(given.pop(pname))
-                else:
-                    if isinstance(default, float) and default != default:
-                        actual.append("nan")
-                    elif isinstance(default, (int, float)):
-                        actual.append(coq_lit(default))
-                    else:
-                        raise self.err(n, f"no usable default for {pname}")
-            if given:
-                raise self.err(n, f"unknown constructor keywords {sorted(given)}")
-            x, k = self.expr(n.args[0])
-            if k == "bool":
-                raise self.err(n, "bool argument")
-            self.used_calls.append(cls)
-            return f"({cls}_membership {' '.join(actual)} {x})", "npf"
+                    raise self.err(n, "bool argument")
+                return f"({obj} {x})", "npf"
+        inl = self.inline_helper(n)
+        if inl is not None:
+            return inl
         raise self.err(n, "unsupported call")
+
+    def helper_term(self, c: ast.Call) -> str:
+        """`Cls(kw=..., ...)` for a translated term class: the partial application `Cls_membership p1 … pn`."""
+        cls = c.func.id
+        if c.args:
+            raise self.err(c, "positional constructor arguments in helper term")
+        given = {}
+        for kw in c.keywords:
+            if kw.arg is None:
+                raise self.err(c, "**kwargs")
+            t, k = self.expr(kw.value)
+            if k == "bool":
+                raise self.err(c, "bool parameter")
+            given[kw.arg] = t
+        actual = []
+        for pname, default in self.signatures[cls]:
+            if pname in given:
+                actual.append(given.pop(pname))
+            elif isinstance(default, float) and default != default:
+                actual.append("nan")
+            elif isinstance(default, (int, float)):
+                actual.append(coq_lit(default))
+            else:
+                raise self.err(c, f"no usable default for {pname}")
+        if given:
+            raise self.err(c, f"unknown constructor keywords {sorted(given)}")
+        self.used_calls.append(cls)
+        return f"{cls}_membership {' '.join(actual)}"
+
+    def inline_helper(self, n: ast.Call) -> tuple[str, str] | None:
+        """`self._h(args)`, `Cls._h(args)` or `_h(args)` where `_h` is a small pure helper of the same module whose body is in
+        the translated subset: the call is replaced by the helper's body with its parameters let-bound to the arguments."""
+        f = n.func
+        if self.resolver is None or n.keywords or self.depth >= 3:
+            return None
+        if isinstance(f, ast.Attribute) and isinstance(f.value, ast.Name):
+            fn = self.resolver(f.value.id, f.attr)
+        elif isinstance(f, ast.Name):
+            fn = self.resolver(None, f.id)
+        else:
+            return None
+        if fn is None:
+            return None
+        a = fn.args
+        if a.vararg or a.kwarg or a.kwonlyargs or a.posonlyargs or a.defaults:
+            raise self.err(n, "helper with defaults/varargs")
+        static = any(isinstance(d, ast.Name) and d.id == "staticmethod" for d in fn.decorator_list)
+        if any(not (isinstance(d, ast.Name) and d.id == "staticmethod") for d in fn.decorator_list):
+            raise self.err(n, "decorated helper")
+        params = [x.arg for x in a.args]
+        is_method = isinstance(f, ast.Attribute)
+        if is_method and not static:
+            if not (f.value.id == "self" and params and params[0] == "self"):
+                raise self.err(n, "helper called on something other than self")
+            params = params[1:]
+        if len(params) != len(n.args):
+            raise self.err(n, "helper arity")
+        sub = FnTranslator(f"{self.where}/{fn.name}", self.self_params if (is_method and not static) else {}, None, self.signatures)
+        sub.resolver = self.resolver
+        sub.depth = self.depth + 1
+        binds = []
+        for prm, arg in zip(params, n.args):
+            t, k = self.expr(arg)
+            cname = f"h{sub.depth}_{prm}"
+            binds.append(f"let {cname} := {t} in")
+            sub.env[prm] = (cname, k)
+        body = sub.body(fn.body)
+        self.used_calls.extend(sub.used_calls)
+        return "(" + " ".join(binds) + " " + body.replace("\n    ", " ") + ")", sub.ret_kind
 
     # ---- statements
     def body(self, stmts: list[ast.stmt]) -> str:
@@ -298,6 +348,9 @@ class FnTranslator:
                     and not v.keywords
                 ):
                     self.env[tgt] = (self.env[tgt][0], "arr0")
+                    continue
+                if isinstance(v, ast.Call) and isinstance(v.func, ast.Name) and v.func.id in self.signatures:
+                    self.env[tgt] = (self.helper_term(v), "termobj")  # a local helper term: only `.membership(x)` may use it
                     continue
                 t, k = self.expr(v)
                 # a rebinding gets a fresh Coq name so that `let` shadowing never changes meaning
@@ -323,9 +376,42 @@ class FnTranslator:
                 t, k = self.expr(s.value)
                 if k == "bool":
                     t = f"(b2f {t})"
+                    k = "npf"
+                self.ret_kind = k
                 return "\n    ".join(lets + [t])
             raise self.err(s, "unsupported statement")
         raise TranslationError(self.where, "no return")
+
+
+def make_resolver(tree: ast.Module, cls: ast.ClassDef):
+    """Looks up private helpers (`_name`, not dunder) for FnTranslator.inline_helper: methods of the class or of its bases
+    defined in the same module (`self._h`, `Cls._h`), or module-level functions (`_h`)."""
+    classes = {n.name: n for n in tree.body if isinstance(n, ast.ClassDef)}
+    funcs = {n.name: n for n in tree.body if isinstance(n, ast.FunctionDef)}
+
+    def in_class(c: ast.ClassDef, name: str, seen=()):
+        for s in c.body:
+            if isinstance(s, ast.FunctionDef) and s.name == name:
+                return s
+        for b in c.bases:
+            if isinstance(b, ast.Name) and b.id in classes and b.id not in seen:
+                r = in_class(classes[b.id], name, seen + (c.name,))
+                if r is not None:
+                    return r
+        return None
+
+    def resolve(owner: str | None, name: str):
+        if not name.startswith("_") or name.startswith("__"):
+            return None
+        if owner is None:
+            return funcs.get(name)
+        if owner == "self":
+            return in_class(cls, name)
+        if owner in classes:
+            return in_class(classes[owner], name)
+        return None
+
+    return resolve
 
 
 def init_signature(cls: ast.ClassDef, where: str) -> list[tuple[str, object]] | None:
@@ -412,6 +498,7 @@ def translate_simple(path: str, method: str, skip: set[str], base_names: set[str
         try:
             params = [a.arg for a in m.args.args[1:]]
             tr = FnTranslator(where, {}, None, {})
+            tr.resolver = make_resolver(tree, cls)
             for p in params:
                 tr.env[p] = (f"v_{p}", "raw")
             body = tr.body(m.body)
@@ -466,6 +553,7 @@ def translate_terms(path: str) -> tuple[str, dict, list[TranslationError]]:
                 if margs != [arg]:
                     raise TranslationError(where, f"unexpected arguments {margs}")
                 tr = FnTranslator(where, self_params, arg, sigs)
+                tr.resolver = make_resolver(tree, cls)
                 body = tr.body(m.body)
                 text = f"Definition {name}_{method} {{T : Type}} {{N : Num T}} ({plist} : T) (v_{arg} : T) : T :=\n    {body}.\n\n"
                 defs[f"{name}_{method}"] = (text, [f"{c}_membership" for c in tr.used_calls])
@@ -661,15 +749,21 @@ def translate_optable(path: str) -> tuple[str, list[TranslationError]]:
     return "".join(out), errors
 
 
+SOFT_SWITCHES: list[str] = []  # switches whose source shape was not recognised in this run (search hints)
+
+
 def translate_switches(fl_dir: str) -> tuple[str, list[TranslationError]]:
     """Boolean facts about the SHAPE of three hand-modelled functions, read off their ASTs, so that the hand models
     follow /repo when one of the known defects is repaired or re-introduced:
       consequent_modify_carries_degree  Consequent.modify's hedge loop assigns the loop-carried parameter (known finding F1)
       antecedent_final_check_on_stack   Antecedent.load's final-state check applies `&` to `stack` instead of `state` (F6)
       is_ready_disjunction_nested       Engine.is_ready's missing-disjunction check sits inside the missing-conjunction branch (F9)
-    Anything unexpected is an error (fail closed)."""
+    When a function has been restructured so that the shape is no longer recognisable, the switch keeps the value it has
+    at the pinned commit and the function is listed as a search hint (SOFT, returned through `soft`): the hand model is
+    then tied to the code by the correspondence check alone, exactly like the hand-modelled functions that have no switch."""
     errors: list[TranslationError] = []
     vals: dict[str, bool] = {}
+    PINNED = {"consequent_modify_carries_degree": True, "antecedent_final_check_on_stack": False, "is_ready_disjunction_nested": False}
 
     def cls_method(path, cls, meth):
         tree = ast.parse(open(path).read())
@@ -690,8 +784,8 @@ def translate_switches(fl_dir: str) -> tuple[str, list[TranslationError]]:
                 and len(a.value.args) == 1 and isinstance(a.value.args[0], ast.Name) and a.value.args[0].id == a.targets[0].id):
             raise TranslationError("rule.py:Consequent.modify", "unexpected hedge loop body: " + ast.unparse(a))
         vals["consequent_modify_carries_degree"] = a.targets[0].id == param
-    except TranslationError as e:
-        errors.append(e)
+    except (TranslationError, IndexError) as e:
+        SOFT_SWITCHES.append(f"switch:{e}")
     try:
         m = cls_method(os.path.join(fl_dir, "rule.py"), "Antecedent", "load")
         found = []
@@ -706,7 +800,7 @@ def translate_switches(fl_dir: str) -> tuple[str, list[TranslationError]]:
             raise TranslationError("rule.py:Antecedent.load", f"final-state check not recognised: {found}")
         vals["antecedent_final_check_on_stack"] = after[0][1] == "stack"
     except TranslationError as e:
-        errors.append(e)
+        SOFT_SWITCHES.append(f"switch:{e}")
     try:
         m = cls_method(os.path.join(fl_dir, "engine.py"), "Engine", "is_ready")
 
@@ -719,12 +813,12 @@ def translate_switches(fl_dir: str) -> tuple[str, list[TranslationError]]:
             raise TranslationError("engine.py:Engine.is_ready", "operator checks not recognised")
         vals["is_ready_disjunction_nested"] = any(x is disj[0] for x in ast.walk(conj[0]))
     except TranslationError as e:
-        errors.append(e)
+        SOFT_SWITCHES.append(f"switch:{e}")
     out = ["(* GENERATED by tools/translate.py from rule.py / engine.py / activation.py — do not edit. *)\n",
            "Require Import Coq.Strings.String Coq.Lists.List.\nImport ListNotations.\nOpen Scope string_scope.\n"]
     for k in ("consequent_modify_carries_degree", "antecedent_final_check_on_stack", "is_ready_disjunction_nested"):
-        if k in vals:
-            out.append(f"Definition {k} : bool := {str(vals[k]).lower()}.\n")
+        v = vals.get(k, PINNED[k])
+        out.append(f"Definition {k} : bool := {str(v).lower()}." + ("" if k in vals else "  (* shape not recognised: value of the pinned commit *)") + "\n")
     # Threshold.Comparator: (member, symbol, operator function) from the enum body and its __operator__ table
     try:
         tree = ast.parse(open(os.path.join(fl_dir, "activation.py")).read())
@@ -783,6 +877,7 @@ def run(out_dir: str) -> list[TranslationError]:
     errors += errs
     if text:
         write_if_changed(os.path.join(out_dir, "GenOpTable.v"), text)
+    SOFT_SWITCHES.clear()
     text, errs = translate_switches(fl)
     errors += errs
     write_if_changed(os.path.join(out_dir, "GenSwitches.v"), text)
@@ -790,7 +885,7 @@ def run(out_dir: str) -> list[TranslationError]:
     try:
         import translate_signatures
 
-        pins = []
+        pins = list(SOFT_SWITCHES)
         for e in translate_signatures.run(out_dir):
             if "source changed (hash" in str(e):
                 # a hand-modelled function was edited: not a translation failure; the correspondence decides whether the
